@@ -13,7 +13,7 @@ R5  the two inspectors dispatch on the same dds API paths and raise the same cod
 from __future__ import annotations
 
 import ast
-from typing import List, Optional, Set, Tuple, Dict
+from typing import List, Optional, Set, Tuple, Dict, Any
 
 from ..cfg import cfg_of, Node
 from ..flow import flow_of, bind_arg
@@ -132,21 +132,110 @@ def _guard_test(f: Func, stmt: ast.AST) -> ast.AST:
     raise AnchorError(f"statement at {f.loc(stmt)} is not guarded by an if")
 
 
+class Family:
+    """A call inspector: the method the visitors call (holder) plus the handler methods it dispatches to through a
+    table {constant API path: handler} (`h = TABLE.get(path); if h is not None: return h(...)`)."""
+
+    def __init__(self, holder: Func):
+        self.holder = holder
+        self.handlers: Dict[str, Tuple[Func, Tuple[str, ...]]] = {}  # qname -> (method, key path)
+        self.table_keys: Set[Tuple[str, ...]] = set()
+        self.lookup_vars: Set[str] = set()  # names defined by TABLE.get(path)
+        self.dispatch_calls: List[ast.Call] = []
+
+    def members(self) -> List[Func]:
+        return [self.holder] + [m for m, _ in self.handlers.values()]
+
+
+def families(ctx: Ctx) -> List[Family]:
+    prog = ctx.prog
+    out: List[Family] = []
+    for cq in ("dds.introspect.InspectFunction", "dds._introspect_indirect.InspectFunctionIndirect"):
+        c = prog.classes.get(cq)
+        if c is None or "inspect_call" not in c.methods:
+            raise AnchorError(f"role call-inspector ({cq}.inspect_call) not found")
+        fam = Family(c.methods["inspect_call"])
+        h = fam.holder
+        tables: Dict[str, Dict[Tuple[str, ...], Func]] = {}
+        for n in h.own_nodes():
+            if isinstance(n, (ast.Assign, ast.AnnAssign)) and isinstance(n.value, ast.Dict):
+                tgt = n.targets[0] if isinstance(n, ast.Assign) else n.target
+                entries: Dict[Tuple[str, ...], Func] = {}
+                for k, v in zip(n.value.keys, n.value.values):
+                    kp = _const_path(k) if k is not None else None
+                    if kp is not None and isinstance(v, ast.Attribute) and v.attr in c.methods:
+                        entries[kp] = c.methods[v.attr]
+                if entries and isinstance(tgt, ast.Name):
+                    tables[tgt.id] = entries
+        for n in h.own_nodes():
+            if isinstance(n, ast.Assign) and isinstance(n.value, ast.Call) and isinstance(n.value.func, ast.Attribute) and n.value.func.attr == "get" \
+                    and isinstance(n.value.func.value, ast.Name) and n.value.func.value.id in tables and isinstance(n.targets[0], ast.Name):
+                fam.lookup_vars.add(n.targets[0].id)
+                for kp, m in tables[n.value.func.value.id].items():
+                    fam.handlers[m.qname] = (m, kp)
+                    fam.table_keys.add(kp)
+        for n in h.own_nodes():
+            if isinstance(n, ast.Call) and isinstance(n.func, ast.Name) and n.func.id in fam.lookup_vars:
+                fam.dispatch_calls.append(n)
+        out.append(fam)
+    return out
+
+
 def inspectors(ctx: Ctx) -> List[Func]:
-    out = [f for f in ctx.prog.funcs.values() if raises_with_code(f, "CIRCULAR_CALL") and f.cls is not None]
-    if len(out) < 2:
-        raise AnchorError(f"role call-inspector (method raising CIRCULAR_CALL): found {len(out)}, expected 2")
-    return sorted(out, key=lambda f: f.qname)
+    """every method that takes part in call inspection (holders and their dispatch handlers)"""
+    out: List[Func] = []
+    for fam in families(ctx):
+        out += fam.members()
+    return out
+
+
+def family_of(ctx: Ctx, f: Func) -> Family:
+    for fam in families(ctx):
+        if f in fam.members():
+            return fam
+    raise AnchorError(f"{f.qname} is not part of a call inspector")
+
+
+def entry_path(ctx: Ctx, f: Func) -> Optional[Tuple[str, ...]]:
+    """the constant API path under which a handler is reached (None for the holder)"""
+    fam = family_of(ctx, f)
+    if f.qname in fam.handlers:
+        return fam.handlers[f.qname][1]
+    return None
+
+
+def not_in_table_nodes(ctx: Ctx, f: Func):
+    """branch nodes of the holder on which the callee path is known NOT to be a key of the dispatch table"""
+    fam = family_of(ctx, f)
+    if f is not fam.holder or not fam.lookup_vars:
+        return []
+    cfg = cfg_of(f)
+    out = []
+    for b in cfg.nodes:
+        if b.kind != "branch" or b.ast is None:
+            continue
+        a = b.ast
+        if isinstance(a, ast.Compare) and isinstance(a.left, ast.Name) and a.left.id in fam.lookup_vars and len(a.ops) == 1 \
+                and isinstance(a.comparators[0], ast.Constant) and a.comparators[0].value is None:
+            if (isinstance(a.ops[0], ast.IsNot) and b.label == "F") or (isinstance(a.ops[0], ast.Is) and b.label == "T"):
+                out.append(b)
+        if isinstance(a, ast.Name) and a.id in fam.lookup_vars and b.label == "F":
+            out.append(b)
+    return out
 
 
 def descents(ctx: Ctx, f: Func) -> List[ast.Call]:
-    """Calls in f that re-enter introspection: the callee can reach f again in the call graph."""
+    """Calls in f that re-enter introspection: the callee can reach f's inspector (holder or handlers) again in the call graph."""
+    try:
+        fam = {m.qname for m in family_of(ctx, f).members()}
+    except AnchorError:
+        fam = {f.qname}
     out = []
     for n in f.own_nodes():
         if isinstance(n, ast.Call):
             fs, _ = ctx.prog.callees(f, n, ctx._types)
             for c in fs:
-                if c is not f and f.qname in ctx.reachable_funcs([c.qname]) and "call_stack" in c.params:
+                if c.qname not in fam and (fam & ctx.reachable_funcs([c.qname])) and "call_stack" in c.params:
                     out.append(n)
                     break
     return sorted(out, key=lambda c: c.lineno)
@@ -237,6 +326,12 @@ def run(ctx: Ctx) -> None:
                     and c_.left.id in eval_vars and _const_path(c_.comparators[0]) not in (None, ("dds", "eval"))
                 ):
                     eval_outs.append(n_)
+        fam_ = family_of(ctx, f)
+        ep_ = entry_path(ctx, f)
+        if ep_ is not None and ep_ != ("dds", "eval"):
+            eval_outs.append(cfg.entry)  # the handler is only reached for its own (other) API path
+        if ("dds", "eval") in fam_.table_keys:
+            eval_outs += not_in_table_nodes(ctx, f)
         for call in descents(ctx, f):
             n_desc += 1
             where = f.loc(call)
@@ -301,19 +396,31 @@ def run(ctx: Ctx) -> None:
             else:
                 rep.bad("C11.R3", f.qname, desc3, where, ["path to the descent that skips the EVAL_IN_EVAL rejection:"] + w,
                         stmt_key(call), what="nested dds.eval inside the call tree is not rejected statically")
-        if not evalr:
+        fam_raises = [m_ for m_ in fam_.members() if raises_with_code(m_, "EVAL_IN_EVAL")]
+        if f is fam_.holder and not fam_raises:
             rep.bad("C11.R3", f.qname, "inspector rejects calls that resolve to dds.eval", f.loc(), ["no raise with EVAL_IN_EVAL in this inspector"],
                     "no-eval-reject", what="inspector has no EVAL_IN_EVAL rejection")
+        if f is fam_.holder:
+            for hq, (hm, kp) in fam_.handlers.items():
+                if kp == ("dds", "eval"):
+                    hcfg = cfg_of(hm)
+                    if not raises_with_code(hm, "EVAL_IN_EVAL") or hcfg.find_path([hcfg.entry], [hcfg.exit]) is not None:
+                        rep.bad("C11.R3", hm.qname, "the handler of the dds.eval path always raises EVAL_IN_EVAL", hm.loc(), ["a normal return path exists"], "eval-handler",
+                                what="nested dds.eval inside the call tree is not rejected statically")
+                    else:
+                        rep.ok("C11.R3", hm.qname, "the handler of the dds.eval path always raises EVAL_IN_EVAL", hm.loc())
         paths: Set[Tuple[str, ...]] = set()
         for n in f.own_nodes():
             if isinstance(n, ast.Call) and isinstance(n.func, ast.Attribute) and n.func.attr == "from_list" and n.args:
                 l = n.args[0]
                 if isinstance(l, ast.List) and all(const_str(e) is not None for e in l.elts):
                     paths.add(tuple(const_str(e) for e in l.elts))  # type: ignore
-        api_paths[f.qname] = paths
-        codes[f.qname] = {c for c in (error_code_of(n) for n in f.own_nodes() if isinstance(n, ast.Raise)) if c}
+        hq_ = fam_.holder.qname
+        api_paths.setdefault(hq_, set()).update(paths | fam_.table_keys)
+        codes.setdefault(hq_, set()).update({c for c in (error_code_of(n) for n in f.own_nodes() if isinstance(n, ast.Raise)) if c})
     rep.floor("C11.R2", n_desc, 4)
-    a, b = insp[0], insp[1]
+    fams_ = families(ctx)
+    a, b = fams_[0].holder, fams_[1].holder
     if api_paths[a.qname] == api_paths[b.qname] and {("dds", "keep"), ("dds", "load"), ("dds", "eval")} <= api_paths[a.qname]:
         rep.ok("C11.R5", f"{a.qname} ~ {b.qname}", f"both dispatch on {sorted(api_paths[a.qname])}", a.loc())
     else:
